@@ -16,7 +16,7 @@
 //   - if the top-level call returns Ok, the VMOutput's storage updates equal the reference
 //     pending writes, per-address balance deltas equal the reference, and no OutputTransfer
 //     entry (recognised by its unique value) originates in a rolled-back call.
-//   If the top-level call fails its VMOutput is not judged (scProcessor discards it).
+//     If the top-level call fails its VMOutput is not judged (scProcessor discards it).
 package main
 
 import (
@@ -152,8 +152,6 @@ const (
 	actCall0
 	actCallV
 )
-
-var actNames = []string{"OK", "FAIL", "write", "transfer", "call", "call+value"}
 
 func (s *scripted) Execute(_ *vmcommon.ContractCallInput) vmcommon.ReturnCode {
 	r := s.in.run
@@ -494,7 +492,12 @@ func main() {
 			c.Outcome(fmt.Sprintf("%s failed=%d ok=%d viol=%d", r.trace[len(r.trace)-1], min(r.failedCalls, 3), min(r.okCalls, 3), len(r.viol)))
 			for _, v := range r.viol {
 				v.detail["program"] = r.trace
-				c.ViolationR(v.sig, len(r.trace)*100+len(ch.Choices()), v.detail, ch.Choices())
+				// smallest program first, then the simplest choices (Ok < fail < write < ..., value 0 < value)
+				rank := len(r.trace) * 10000
+				for _, k := range ch.Choices() {
+					rank += k
+				}
+				c.ViolationR(v.sig, rank, v.detail, ch.Choices())
 			}
 		}
 		if len(c.ReplayData) > 0 {
